@@ -89,7 +89,7 @@ fn cache_seq(m: &HashMap<String, String>) {
     let out: seq::Out = Arc::new(Mutex::new(Vec::new()));
     let o2 = out.clone();
     let st = guarded(out.clone(), Duration::from_secs(60), move || {
-      let mut sim = seq::Sim::new(cfg, hseed, o2);
+      let mut sim = seq::Sim::new(cfg, hseed, i, o2);
       sim.run();
     });
     let recs = std::mem::take(&mut *out.lock());
@@ -110,10 +110,35 @@ fn cache_seq(m: &HashMap<String, String>) {
     "profiles":by_profile,"wall_ms":t0.elapsed().as_millis() as u64}));
 }
 
+/// Runs one scripted history: {"cfg": {...}, "steps": [[op, args...], ...]}
+fn cache_script(m: &HashMap<String, String>) {
+  let path = m.get("script").expect("--script");
+  let kf = list(m, "kf", "");
+  let outp = m.get("out").cloned().unwrap_or_else(|| "/dev/stdout".into());
+  let js: serde_json::Value = serde_json::from_str(&std::fs::read_to_string(path).expect("read script")).expect("script json");
+  let cfg = seq::cfg_from_json(&js["cfg"], &kf);
+  let steps = js["steps"].as_array().expect("steps").clone();
+  let out: seq::Out = Arc::new(Mutex::new(Vec::new()));
+  let o2 = out.clone();
+  std::panic::set_hook(Box::new(|_| {}));
+  let st = guarded(out.clone(), Duration::from_secs(60), move || {
+    let mut sim = seq::Sim::new(cfg, 1, 0, o2);
+    sim.run_script(&steps);
+  });
+  let recs = std::mem::take(&mut *out.lock());
+  let mut file = std::io::BufWriter::new(std::fs::File::create(&outp).expect("out file"));
+  for r in &recs {
+    writeln!(file, "{}", r).unwrap();
+  }
+  file.flush().unwrap();
+  println!("{}", json!({"driver":"cache-script","histories":1,"records":recs.len(),"status":st}));
+}
+
 fn main() {
   let (cmd, m) = args();
   match cmd.as_str() {
     "cache-seq" => cache_seq(&m),
+    "cache-script" => cache_script(&m),
     "cache-stress" => stress::run(&m),
     _ => {
       eprintln!("usage: fv-cachex cache-seq|cache-stress --seed N --programs N --ops N --profiles a,b --out FILE");
